@@ -23,6 +23,12 @@ const WAIT: Duration = Duration::from_secs(4);
 const SPIN_W: u64 = 8;
 const SPIN_ROUNDS: u64 = 200;
 const SPIN_CASES: u64 = 4;
+/// large batches on the blocking client: requests per batch, batches per case, cases in the quick tier
+const BIG_BATCH: u64 = 512;
+const BIG_BATCH_REP: u64 = 80;
+const BIG_BATCH_CASES: u64 = 8;
+/// the long mid-frame stall (AsyncClient), milliseconds
+const LONG_STALL_MS: u64 = 2300;
 
 fn rt() -> &'static tokio::runtime::Runtime {
     static RT: OnceLock<tokio::runtime::Runtime> = OnceLock::new();
@@ -207,6 +213,9 @@ fn outcome(r: Result<Value, RepeError>) -> String {
 
 /// set per case: a WebSocket client on which nobody subscribed to notifications (`sub=0`)
 static NO_SUB: std::sync::atomic::AtomicBool = std::sync::atomic::AtomicBool::new(false);
+/// set per case: a WebSocket client whose notification subscriber went away (`sub=d`): somebody
+/// subscribed and then dropped the receiver WITHOUT calling `unsubscribe_notifies()`
+static DROPPED_SUB: std::sync::atomic::AtomicBool = std::sync::atomic::AtomicBool::new(false);
 
 struct Setup { cl: Cl, srv: Server, sub: Option<tokio::sync::mpsc::UnboundedReceiver<repe::Message>> }
 
@@ -237,6 +246,8 @@ fn setup(kind: &str) -> Result<Setup, String> {
                 Ok::<_, String>((cl, ws))
             })?;
             let sub = if NO_SUB.load(std::sync::atomic::Ordering::SeqCst) { None } else { Some(cl.subscribe_notifies().map_err(|_| "already subscribed".to_string())?) };
+            // sub=d: the receiver is gone, the client still holds the sender (a stale slot)
+            let sub = if DROPPED_SUB.load(std::sync::atomic::Ordering::SeqCst) { drop(sub); None } else { sub };
             Ok(Setup { cl: Cl::Ws(cl), srv: Server { conn: Conn::Ws(Box::new(ws)), seen: HashMap::new(), ids: vec![], notifies: vec![], err: None, answered: Default::default(), gone: Default::default() }, sub })
         }
     }
@@ -574,7 +585,17 @@ fn run_inner(kind: &str, mode: &str, n: u64, sched: &[Step], f: &HashMap<String,
                 Cl::Async(c) => { rt().spawn(async move { report(c.batch_json_with_timeout(reqs, btmo).await) }); }
                 Cl::Ws(c) => { rt().spawn(async move { report(c.batch_json_with_timeout(reqs, btmo).await) }); }
             }
-            for st in sched { if let Some(fr) = server_frame(&mut srv, st) { srv.send(fr); } }
+            // burst=1 (harness-only): the same frames in the same order, but the server hands them to
+            // the connection in as few writes as possible: frames are collected while the requests
+            // they answer have been read already and leave together, at the latest when the server
+            // has to read on (many responses reach the client at the same moment)
+            let burst = f.contains_key("burst");
+            let mut held: Vec<u8> = Vec::new();
+            for st in sched {
+                if let Step::Reply(k, _) | Step::Notify(k, _) = st { if !srv.seen.contains_key(k) && !held.is_empty() { srv.send(std::mem::take(&mut held)); } }
+                if let Some(fr) = server_frame(&mut srv, st) { if burst { held.extend_from_slice(&fr); } else { srv.send(fr); } }
+            }
+            if !held.is_empty() { srv.send(held); }
             // the unanswered entries end by their own timeout while the connection is still open
             if mode == "batcht" {
                 pump(&rx, &mut outs, |o| o.len() as u64 >= n, Duration::from_secs(6));
@@ -618,7 +639,20 @@ fn run_case(line: &str) -> String {
     let kind = f["k"].clone(); let mode = f["mode"].clone(); let n = hx(&f["n"]);
     let sched: Vec<Step> = if f["sched"] == "-" { vec![] } else { f["sched"].split(';').map(parse_step).collect() };
     NO_SUB.store(f.get("sub").map(|v| v == "0").unwrap_or(false), std::sync::atomic::Ordering::SeqCst);
-    guard(std::panic::AssertUnwindSafe(|| run_inner(&kind, &mode, n, &sched, &f))).unwrap_or_else(|_| "crash=panic".into())
+    DROPPED_SUB.store(f.get("sub").map(|v| v == "d").unwrap_or(false), std::sync::atomic::Ordering::SeqCst);
+    // rep=<r> (harness-only): the case is run up to r times, each time on a fresh connection and a
+    // fresh client; ONE of these observations is reported: that of the first run in which some
+    // caller's outcome is not its own response (`g<c>` for caller c), or else that of the last run.
+    // (Which run is reported is only a choice among genuine observations of this case; it is judged
+    // by the model and the oracle like any other.)
+    let rep = f.get("rep").map(|v| hx(v)).unwrap_or(1).max(1);
+    let own = (0..n).map(|c| format!("g{c:x}")).collect::<Vec<_>>().join(",");
+    let mut obs = String::new();
+    for _ in 0..rep {
+        obs = guard(std::panic::AssertUnwindSafe(|| run_inner(&kind, &mode, n, &sched, &f))).unwrap_or_else(|_| "crash=panic".into());
+        if fields(&obs).get("out") != Some(&own) { break; }
+    }
+    obs
 }
 
 // ---------------------------------------------------------------- case generation
@@ -964,6 +998,53 @@ fn gen_cases(seed: u64, thorough: bool) -> Vec<String> {
             sched.extend(order.into_iter().map(|k| Step::Reply(k, 0)));
         }
         cases.push(format!("{} w={w:x}", render("tcp", "spin", w * rounds, &sched)));
+    }
+    // AsyncClient: a response frame that stalls for 2.3 s in the middle (inside the header; at the
+    // start of the body) while the other calls are in flight: however long the peer is silent
+    // inside a frame, the frame is read whole and every call gets its own response
+    for (i, off) in [0x18u64, 0x32].into_iter().enumerate() {
+        let n = 3 + i as u64;
+        let mut order: Vec<u64> = (0..n).collect(); shuffle(&mut rng, &mut order);
+        let sched = script(&mut rng, false, n, &order, false);
+        cases.push(format!("{} stall={:x}:{off:x}:{:x}", render("async", "par", n, &sched), rng.below(n - 1), LONG_STALL_MS));
+    }
+    // blocking client: batches of 512 requests (64 workers at most, so every worker returns to the
+    // shared queue several times, many of them at the same moment) against a server that answers
+    // as the requests arrive and writes its responses in bursts (burst=1, a harness-only switch),
+    // each case repeated on fresh connections (rep=, a harness-only switch): the result at
+    // position i is the response to request i (ordinary `batch` cases, only larger)
+    let nbig = if thorough { BIG_BATCH_CASES * 3 } else { BIG_BATCH_CASES };
+    for i in 0..nbig {
+        let w = batch_cap();
+        // half of them answered the usual way (any request in flight next), half group by group:
+        // the requests in flight together are answered together, in a shuffled order
+        let sched = if i % 2 == 0 { batch_script(&mut rng, BIG_BATCH, w) } else {
+            let mut s = prefix(BIG_BATCH);
+            let mut lo = 0;
+            while lo < BIG_BATCH { let hi = (lo + w).min(BIG_BATCH); let mut g: Vec<u64> = (lo..hi).collect(); shuffle(&mut rng, &mut g); s.extend(g.into_iter().map(|k| Step::Reply(k, 0))); lo = hi; }
+            s
+        };
+        cases.push(format!("{} burst=1 rep={BIG_BATCH_REP:x}", render("tcp", "batch", BIG_BATCH, &sched)));
+    }
+    // WebSocket client whose notification subscriber went away (sub=d: subscribe_notifies(), then the
+    // receiver is dropped without unsubscribe_notifies()): server-pushed notifications, the FIRST of
+    // them reusing the id of a call in flight, are dropped, never handed to a caller (judged like the
+    // client nobody subscribed on: nothing reaches a subscriber, every call gets its own response)
+    for n in 1..=3usize {
+        for p in permutations(n) {
+            // (1) right after the requests, before any reply, then the usual injected frames
+            let mut s1 = script(&mut rng, true, n as u64, &p, true);
+            s1.insert(2 * n, Step::Notify(rng.below(n as u64), 0x100 + cases.len() as u64 % 0x100));
+            cases.push(format!("{} sub=d", render("ws", "par", n as u64, &s1)));
+            // (2) before the j-th reply, for a caller not answered yet; a second one later on
+            let mut s2 = script(&mut rng, true, n as u64, &p, false);
+            let j = rng.below(n as u64) as usize;
+            let k = p[j + rng.below((n - j) as u64) as usize];
+            let at = s2.iter().position(|st| matches!(st, Step::Reply(c, _) if *c == p[j])).unwrap();
+            s2.insert(at, Step::Notify(k, 0x200 + cases.len() as u64 % 0x100));
+            s2.push(Step::NotifyRaw(*rng.pick(&[0u64, 1, n as u64, 1 << 41]), 0x300));
+            cases.push(format!("{} sub=d", render("ws", "par", n as u64, &s2)));
+        }
     }
     cases.into_iter().enumerate().map(|(i, c)| format!("i={i} {c}")).collect()
 }
